@@ -124,8 +124,122 @@ def enabled_strata():
     return _STRATA
 
 
+def gen_crossing(rng):
+    """Two axes (named in or against alphabetical order), masters at the default corner, on both
+    axis ends and at TWO off-axis locations of one quadrant whose coordinates cross ((300, 600)
+    and (600, 300)): the one layout in which the variation model's result depends on the ORDER of
+    the axes (which master's region is trimmed by the other).  No closed form is written down for
+    it; what must hold there is agreement: every interpolated quantity is built from the same
+    masters with the designspace's axis order, so two quantities that have the same value in
+    every master (glyph advance, a kerning pair, an info number) have the same value in every
+    instance."""
+    names = rng.choice([["Width", "Weight"], ["Weight", "Width"], ["zeta", "alpha"], ["b", "a"]])
+    tags = {"Width": "wdth", "Weight": "wght", "zeta": "ZETA", "alpha": "ALPH", "b": "BBBB", "a": "AAAA"}
+    axes = [{"name": n, "tag": tags[n], "min": 0, "default": 0, "max": 1000} for n in names]
+    p, q = rng.choice([(300, 600), (250, 700), (400, 800)])
+    locs = [(0, 0), (1000, 0), (0, 1000), (p, q), (q, p)]
+    if rng.random() < 0.4:
+        locs.append((1000, 1000))
+    ufos, sources = [], []
+    for mi, (x, y) in enumerate(locs):
+        w = rng.randint(300, 900)
+        k = rng.randint(10, 400)
+        glyph = {"name": "a", "width": w, "unicodes": [0x61], "components": [],
+                 "anchors": [{"name": "top", "x": k, "y": w}],
+                 "contours": [[[0, 0, "line"], [w, 0, "line"], [w, k, "line"], [0, k, "line"]]]}
+        other = {"name": "b", "width": k, "unicodes": [0x62], "components": [], "anchors": [],
+                 "contours": [[[0, 0, "line"], [k, 0, "line"], [k // 2, w, "line"]]]}
+        ufos.append({"info": {"unitsPerEm": 1000, "familyName": "X", "styleName": "M%d" % mi,
+                              "xHeight": w, "capHeight": k, "ascender": 800, "descender": -200},
+                     "glyphs": [glyph, other], "lib": {}, "groups": {}, "features": "",
+                     "kerning": [["a", "a", w], ["a", "b", k]], "glyphOrder": None})
+        sources.append({"ufo": mi, "location": {names[0]: x, names[1]: y}, "name": "master.%d" % mi})
+    if rng.random() < 0.5:
+        order = list(range(1, len(sources)))
+        rng.shuffle(order)
+        sources = [sources[0]] + [sources[i] for i in order]
+    ds = {"axes": axes, "ufos": ufos, "sources": sources, "rules": [],
+          "meta": {"layout": "2axis_crossing"}}
+    lo, hi = min(p, q), max(p, q)
+    pts = [(rng.randint(lo // 2, hi + 100), rng.randint(lo // 2, hi + 100)) for _ in range(6)]
+    pts += [(500, 200), (200, 500), (p, p), (q, q)]
+    return {"stratum": "crossing_masters", "ds": ds, "lib": rng.choice(["defcon", "ufoLib2"]),
+            "round": rng.random() < 0.4,
+            "locations": [{"loc": {names[0]: x, names[1]: y}, "via": "location", "kind": "interior"}
+                          for x, y in pts] +
+                         [{"loc": dict(s_["location"]), "via": "location", "kind": "master", "ufo": s_["ufo"]}
+                          for s_ in sources],
+            "repeat": [], "layered_default": False}
+
+
+def run_crossing(case):
+    from fontTools.designspaceLib import InstanceDescriptor
+    from ufo2ft import instantiator as I
+
+    counters = {"stratum_crossing_masters": 1}
+    violations = []
+
+    def bump(k, n=1):
+        counters[k] = counters.get(k, 0) + n
+
+    ds = case["ds"]
+    doc, _fonts = build_designspace(ds, case["lib"])
+    try:
+        inst = I.Instantiator.from_designspace(doc, round_geometry=case["round"])
+    except Exception:  # noqa: BLE001
+        return {"status": "violated", "counters": counters, "violations": [
+            {"mech": "unexpected_exception", "detail": {"trace": traceback.format_exc()[-2500:]}}]}
+    tol = 1.0 if case["round"] else 1e-6
+    for k, L in enumerate(case["locations"]):
+        d = InstanceDescriptor(familyName="Inst", styleName="S%d" % k)
+        d.location = dict(L["loc"])
+        try:
+            font = inst.generate_instance(d)
+        except Exception:  # noqa: BLE001
+            violations.append({"mech": "unexpected_exception", "detail": {
+                "loc": L["loc"], "trace": traceback.format_exc()[-2500:]}})
+            continue
+        g, b = font["a"], font["b"]
+        pts_a = [(p.x, p.y) for c in g for p in (c.points if hasattr(c, "points") else c)]
+        pts_b = [(p.x, p.y) for c in b for p in (c.points if hasattr(c, "points") else c)]
+        anchor = [(a.x, a.y) for a in g.anchors][0]
+        same = {"w": [("advance of a", g.width), ("x of a's second point", pts_a[1][0]),
+                      ("kerning a a", font.kerning.get(("a", "a"))),
+                      ("info.xHeight", font.info.xHeight), ("y of a's anchor", anchor[1]),
+                      ("y of b's apex", pts_b[2][1])],
+                "k": [("advance of b", b.width), ("y of a's third point", pts_a[2][1]),
+                      ("kerning a b", font.kerning.get(("a", "b"))),
+                      ("info.capHeight", font.info.capHeight), ("x of a's anchor", anchor[0])]}
+        if L["kind"] == "master":
+            bump("master_location_instances")
+            src = ds["ufos"][L["ufo"]]
+            exp = {"w": src["glyphs"][0]["width"], "k": src["glyphs"][1]["width"]}
+        else:
+            bump("interior_instances")
+            exp = None
+        for key, vals in same.items():
+            nums = [(n_, v) for n_, v in vals if v is not None]
+            bump("quantities_compared_across_models", len(nums))
+            ref_name, ref_v = nums[0]
+            for n_, v in nums[1:]:
+                if abs(v - ref_v) > tol:
+                    violations.append({"mech": "quantities_equal_in_every_master_differ_in_instance",
+                                       "detail": {"loc": L["loc"], ref_name: ref_v, n_: v,
+                                                  "axes": [a["name"] for a in ds["axes"]],
+                                                  "sources": ds["sources"]}})
+                    break
+            if exp is not None and abs(ref_v - exp[key]) > (0.5 if case["round"] else 1e-6):
+                violations.append({"mech": "master_not_reproduced", "detail": {
+                    "loc": L["loc"], ref_name: ref_v, "master_value": exp[key]}})
+    return {"status": "violated" if violations else "held", "violations": violations[:8],
+            "counters": counters,
+            "nontrivial": counters.get("interior_instances", 0) > 0}
+
+
 def gen(rng, idx, tier):
     r = rng.random()
+    if 0.11 <= r < 0.14:
+        return gen_crossing(rng)
     stratum = "default"
     opts = {}
     on = enabled_strata()
@@ -790,6 +904,8 @@ def lookup_instance(kern, groups, key):
 # =============================================================================================
 
 def run(case):
+    if case.get("stratum") == "crossing_masters":
+        return run_crossing(case)
     from fontTools.designspaceLib import InstanceDescriptor
     from ufo2ft import instantiator as I
 
